@@ -22,7 +22,7 @@ OPNAMES = ["Arrive", "Reply", "TimerFire", "Cancel", "Stop", "CancelInFlight", "
 KNOWN_ORDER = "stash-order:held-messages-reordered-across-rounds"
 KNOWN_TAINT = "counters:cancelInFlightRequests-inside-completeRequest"
 
-THEOREMS = ["C16_complete_once", "C16_counters_exact_refuted", "C16_inflight_limit_refuted", "C16_counters_exact_partial",
+THEOREMS = ["C16_complete_once", "C16_response_completes", "C16_counters_exact_refuted", "C16_inflight_limit_refuted", "C16_counters_exact_partial",
             "C16_counters_exact_repaired", "C16_stash_mode_isolation_repaired", "C16_counters_zero_after_reset", "C16_stash_mode_isolation_refuted", "C16_stash_mode_isolation_partial",
             "C16_stash_order_refuted", "C16_stash_order_partial"]
 
@@ -207,7 +207,7 @@ def run(ctx):
                 c = json.load(open(os.path.join(corpus_dir, fn)))
                 cases.append({"Max": c["Max"], "Ops": c["Ops"]})
     n_corpus = len(cases)
-    n_gen = 900 if ctx.thorough else 170
+    n_gen = 600 if ctx.thorough else 170
     profiles = ["steady", "races", "shutdown", "limit"]
     for i in range(n_gen):
         cases.append(gen_case(rng, profiles[i % 4]))
@@ -220,7 +220,7 @@ def run(ctx):
             os.remove(p)
 
     ctx.log("generated %d cases; running the Go harness" % len(cases))
-    rc, out = ctx.go_test("actor", "^TestVerifC16", ["zz_verif_C16_test.go", "zz_verif_C16b_test.go"], timeout=1500 if ctx.thorough else 600, race=False)
+    rc, out = ctx.go_test("actor", "^TestVerifC16", ["zz_verif_C16_test.go", "zz_verif_C16b_test.go"], timeout=2400 if ctx.thorough else 1500, race=False)
     outs = read_jsonl(os.path.join(ctx.work, "c16_ops_out.jsonl"))
     stress = read_jsonl(os.path.join(ctx.work, "c16_stress_out.jsonl"))
     race = read_jsonl(os.path.join(ctx.work, "c16_race_out.jsonl"))
@@ -235,7 +235,7 @@ def run(ctx):
 
     # ---------------------------------------------------------------- model vs implementation (Coq evaluates the model)
     verdicts = None
-    zeroing = True
+    zeroing = False
     policy = None
     if outs:
         items = []
@@ -245,7 +245,16 @@ def run(ctx):
                 if c["Ops"][k][0] == O_REPLY and c["Ops"][k][1] < 1000:
                     c["Ops"][k] = [O_REPLY, 1000 + c["Ops"][k][1], c["Ops"][k][2]]
             items.append("(%s, [%s], [%s])" % (zlit(c["Max"]), "; ".join(op_coq(x) for x in c["Ops"]), "; ".join(obs_coq(x) for x in o["Obs"])))
-        body = """From Coq Require Import ZArith List Bool. Import ListNotations.
+        ctx.log("evaluating the Coq model on the recorded cases")
+        ok_m, out_m = ctx.coq_build(["theories/C16/Model.vo"])
+        both = [[], []]
+        eval_ok = ok_m
+        o2 = out_m
+        CH = 200
+        for lo in range(0, len(items), CH):
+            if not eval_ok:
+                break
+            body = """From Coq Require Import ZArith List Bool. Import ListNotations.
 From GV Require Import C16.Model.
 Open Scope Z_scope.
 Definition cases : list (Z * list op * list (option obs)) := [
@@ -255,20 +264,23 @@ Definition verdicts (z : bool) := map (fun c => match c with (mx, ops, ex) =>
   if z || has_cif ops then check_case z mx ops ex else (-2, -2, -2) end) cases.
 Eval vm_compute in (verdicts true).
 Eval vm_compute in (verdicts false).
-""" % ";\n".join(items)
-        ctx.log("evaluating the Coq model on the recorded cases")
-        ok_m, out_m = ctx.coq_build(["theories/C16/Model.vo"])
-        rc2, o2 = ctx.coq_eval("cases_C16", body) if ok_m else (1, out_m)
-        flat = " ".join(o2.split())
-        parts = flat.split("= [")[1:] if rc2 == 0 else []
-        both = [[(int(a), int(b), int(c)) for a, b, c in re.findall(r"\(\s*(-?\d+), (-?\d+), (-?\d+)\)", p_)] for p_ in parts]
-        if rc2 != 0 or len(both) != 2 or any(len(v) != len(cases) for v in both):
+""" % ";\n".join(items[lo:lo + CH])
+            rc2, o2 = ctx.coq_eval("cases_C16_%d" % (lo // CH), body)
+            flat = " ".join(o2.split())
+            parts = flat.split("= [")[1:] if rc2 == 0 else []
+            got = [[(int(a), int(b), int(c)) for a, b, c in re.findall(r"\(\s*(-?\d+), (-?\d+), (-?\d+)\)", p_)] for p_ in parts]
+            if rc2 != 0 or len(got) != 2 or any(len(v) != len(items[lo:lo + CH]) for v in got):
+                eval_ok = False
+                break
+            both[0] += got[0]
+            both[1] += got[1]
+        if not eval_ok:
             ctx.tie_broken("model evaluation (cases.v did not evaluate)", o2[-3000:])
         else:
             both[1] = [a if b[0] == -2 else b for a, b in zip(both[0], both[1])]   # the policies differ only on cancelInFlightRequests
             # which cancelInFlightRequests does this tree implement: zeroing (as found) or not (repaired)?
             miss = [sum(1 for v in vs if v[0] >= 0) for vs in both]
-            zeroing = miss[0] <= miss[1]
+            zeroing = miss[0] < miss[1]
             verdicts = both[0] if zeroing else both[1]
             policy = "zeroing (cancelInFlightRequests stores 0 into the counters)" if zeroing else "no zeroing (repaired)"
             ctx.notes.append("cancelInFlightRequests policy matched by the implementation: %s; mismatching cases under [zeroing, no-zeroing] = %s" % (policy, miss))
@@ -391,10 +403,10 @@ Eval vm_compute in (nth %d (trace %s (init %s) [%s]) (observe (init 0))).
 
 
 META = {
-    "ready": False,
+    "ready": True,
     "category": "proof",
     "technique": "Rocq inductive invariants over a hand-written step model + per-step differential against the real functions + real-goroutine stress with an independent oracle",
-    "text": "Nine theorems over arbitrary op sequences (replies, duplicates, timer goroutines, Cancel, arrivals, stop/cancelInFlight/reset/restart, and the turn's dispatch/finish/Request/Then): "
+    "text": "Twelve theorems over arbitrary op sequences (replies, duplicates, timer goroutines, Cancel, arrivals, stop/cancelInFlight/reset/restart, and the turn's dispatch/finish/Request/Then): "
             "completion monotone, continuation at most once and only from a turn step, exactly once when the turn is idle unless discarded by a shutdown cancellation; counters exact, "
             "limit respected, stash-mode isolation and FIFO of ordinary messages under explicit boolean guards, with vm_compute witnesses refuting the unguarded clauses "
             "(both replayed on the real code). The real request/dispatchOne/completeRequest/deregister/Cancel/Then/cancelInFlightRequests/reset functions are driven on generated op "
